@@ -13,6 +13,7 @@ import os
 import shutil
 
 from mon import refbufr as R
+from mon import handover
 from mon import nested
 from mon.compare import td_of, opsig
 from mon.gen import cases
@@ -167,6 +168,13 @@ def check_message(ctx, m, enc, spec, sigctx, ids, want_encode=True):
     from pybufrkit import utils
     td = td_of(m)
     dumps = lambda o: json.dumps(o, cls=utils.EntityEncoder)
+    try:
+        sb = bytes(m.serialized_bytes)
+        if len(sb) < 20000:
+            # each rendering shows the same data the first time and every later time, in whatever order the four are taken
+            handover.on_message(ctx, sb, spec, site=str(spec.get('origin')), p=0.25)
+    except Exception as e:
+        ctx.notes.append('object history skipped: %r' % (e,))
     try:
         fj = json.loads(dumps(FlatJsonRenderer().render(m)))
         nj_obj = NestedJsonRenderer().render(m)
